@@ -25,7 +25,9 @@ structure Cred where
   hasId : Bool := true
   deriving DecidableEq, Repr, Inhabited
 
-/-- verdict of `PresentationDefinition.Match` on the presentation's credentials -/
+/-- verdict of `PresentationDefinition.Match` on the presentation's credentials: it failed, or `n` of the PRESENTED
+    credentials are among the ones it used (a credential may fulfil several input descriptors; `validateRegistration`
+    requires every presented credential to be used: `n = creds.length`) -/
 inductive Pex where
   | err
   | matched (n : Nat)
@@ -267,6 +269,8 @@ inductive Ev where
   | pollB (perm : List VP → List VP)
   | validate
   | clientVerifier (up : Bool)   -- the client node's verifier goes down / comes back
+  | restartServer                -- the serving node stops and starts again on the SAME database (`Module.Start` → `newSQLStore`)
+  | restartClient                -- the client node restarts: polls in progress are gone, the replica stays
   | dpollStart                   -- another poll of the same client: timestamp read, `Get` answered (both reads), response in flight
   | dpollFinish (i : Nat) (perm : List VP → List VP)   -- the i-th in-flight response arrives and is applied
 
@@ -297,6 +301,8 @@ def step (cfg : Cfg) (d : Def) (w : World) : Ev → World × Out
       ({ w with C := c', ctr := ctr', pending := none }, r)
   | .validate => ({ w with C := clientValidate d w.C w.t }, .ok ())
   | .clientVerifier up => ({ w with C := { w.C with verifierUp := up } }, .ok ())
+  | .restartServer => (w, .ok ())   -- `newSQLStore` only creates MISSING service records (`FirstOrCreate`)
+  | .restartClient => ({ w with pending := none, delayed := [] }, .ok ())
   | .dpollStart =>
     let after := w.C.lastTs
     ({ w with delayed := w.delayed ++ [{ after := after, seed := w.S.seed, ts := w.S.lastTs, rows := w.S.rowsAfter after }] }, .ok ())
